@@ -301,3 +301,391 @@ pub fn any_fdl() -> crate::fdl::FdlActiveStation {
     })
 }
 
+
+// ------------------------------------------------------------------------------------------
+// KPhy: byte-level harness PHY (implements the real ProfibusPhy trait; helpers are the real
+// default methods).  Asserts the trait's documented caller-side contract.
+// ------------------------------------------------------------------------------------------
+
+pub struct KPhy<const RXN: usize, const TXN: usize> {
+    pub rx: [u8; RXN],
+    pub rx_len: usize,
+    pub rx_off: usize,
+    /// what poll_transmission() reports; set once this poll has started a transmission
+    pub transmitting: bool,
+    pub tx: [u8; TXN],
+    pub tx_len: usize,
+    pub tx_calls: usize,
+    pub rx_calls: usize,
+}
+
+impl<const RXN: usize, const TXN: usize> KPhy<RXN, TXN> {
+    /// PHY with fully symbolic receive buffer content and length.
+    pub fn any() -> Self {
+        let rx_len: usize = kani::any();
+        kani::assume(rx_len <= RXN);
+        KPhy {
+            rx: kani::any(),
+            rx_len,
+            rx_off: 0,
+            transmitting: kani::any(),
+            tx: [0; TXN],
+            tx_len: 0,
+            tx_calls: 0,
+            rx_calls: 0,
+        }
+    }
+
+    pub fn idle_with(rx: [u8; RXN], rx_len: usize) -> Self {
+        KPhy { rx, rx_len, rx_off: 0, transmitting: false, tx: [0; TXN], tx_len: 0, tx_calls: 0, rx_calls: 0 }
+    }
+
+    pub fn pending(&self) -> usize {
+        self.rx_len - self.rx_off
+    }
+}
+
+impl<const RXN: usize, const TXN: usize> crate::phy::ProfibusPhy for KPhy<RXN, TXN> {
+    fn poll_transmission(&mut self, _now: crate::time::Instant) -> bool {
+        self.transmitting
+    }
+
+    fn transmit_data<F, R>(&mut self, _now: crate::time::Instant, f: F) -> R
+    where
+        F: FnOnce(&mut [u8]) -> (usize, R),
+    {
+        assert!(!self.transmitting, "C01/phy-contract: no transmission is started while another one is in progress");
+        let (n, r) = f(&mut self.tx[..]);
+        if n > 0 {
+            assert!(n <= TXN, "C01/phy-contract: transmitted length lies inside the buffer");
+            self.tx_len = n;
+            self.tx_calls += 1;
+            self.transmitting = true;
+        }
+        r
+    }
+
+    fn receive_data<F, R>(&mut self, _now: crate::time::Instant, f: F) -> R
+    where
+        F: FnOnce(&[u8]) -> (usize, R),
+    {
+        assert!(!self.transmitting, "C01/phy-contract: nothing is received while a transmission is in progress");
+        self.rx_calls += 1;
+        let (drop, r) = f(&self.rx[self.rx_off..self.rx_len]);
+        assert!(drop <= self.rx_len - self.rx_off, "C16/phy-contract: never more bytes are dropped than were offered");
+        self.rx_off += drop;
+        r
+    }
+}
+
+// ------------------------------------------------------------------------------------------
+// TPhy: telegram-level harness PHY.  The receive helpers are overridden by a model of their
+// contract (proved against the real helpers over KPhy by the C16 harnesses): the buffer holds
+// `n` complete telegrams followed by a tail that is empty, an incomplete telegram (kept), or
+// undecodable bytes (discarded when reached).
+// ------------------------------------------------------------------------------------------
+
+#[derive(Clone, Copy, PartialEq, Eq)]
+pub enum Tail {
+    Empty,
+    Incomplete,
+    Garbage,
+}
+
+#[derive(Clone, Copy)]
+pub struct STel<const P: usize> {
+    /// 0 token, 1 short confirmation, 2 data
+    pub kind: u8,
+    pub da: u8,
+    pub sa: u8,
+    pub dsap: Option<u8>,
+    pub ssap: Option<u8>,
+    pub fc: FunctionCode,
+    pub pdu: [u8; P],
+    pub plen: usize,
+}
+
+impl<const P: usize> STel<P> {
+    pub fn any() -> Self {
+        let kind: u8 = kani::any();
+        kani::assume(kind <= 2);
+        let plen: usize = kani::any();
+        kani::assume(plen <= P);
+        let da: u8 = kani::any();
+        let sa: u8 = kani::any();
+        if kind == 2 {
+            // the decoder strips the extension bit from data telegram addresses
+            kani::assume(da <= 127 && sa <= 127);
+        }
+        STel { kind, da, sa, dsap: any_sap(), ssap: any_sap(), fc: any_function_code(), pdu: kani::any(), plen }
+    }
+
+    pub fn wire_len(&self) -> usize {
+        match self.kind {
+            0 => 3,
+            1 => 1,
+            _ => {
+                let h = DataTelegramHeader { da: self.da, sa: self.sa, dsap: self.dsap, ssap: self.ssap, fc: self.fc };
+                ref_frame_len(&h, self.plen)
+            }
+        }
+    }
+
+    pub fn source(&self) -> Option<u8> {
+        if self.kind == 1 {
+            None
+        } else {
+            Some(self.sa)
+        }
+    }
+
+    pub fn is_token(&self) -> bool {
+        self.kind == 0
+    }
+
+    pub fn is_status_request_for(&self, ts: u8) -> bool {
+        self.kind == 2 && self.da == ts && matches!(self.fc, FunctionCode::Request { req: RequestType::FdlStatus, .. })
+    }
+
+    pub fn with<R>(&self, f: impl FnOnce(crate::fdl::Telegram) -> R) -> R {
+        match self.kind {
+            0 => f(crate::fdl::Telegram::Token(crate::fdl::TokenTelegram { da: self.da, sa: self.sa })),
+            1 => f(crate::fdl::Telegram::ShortConfirmation(crate::fdl::ShortConfirmation)),
+            _ => f(crate::fdl::Telegram::Data(crate::fdl::DataTelegram {
+                h: DataTelegramHeader { da: self.da, sa: self.sa, dsap: self.dsap, ssap: self.ssap, fc: self.fc },
+                pdu: &self.pdu[..self.plen],
+            })),
+        }
+    }
+}
+
+pub struct TPhy<const N: usize, const P: usize, const TXN: usize> {
+    pub tel: [STel<P>; N],
+    pub n: usize,
+    pub next: usize,
+    pub tail: Tail,
+    pub tail_len: usize,
+    pub transmitting: bool,
+    pub tx: [u8; TXN],
+    pub tx_len: usize,
+    pub tx_calls: usize,
+    pub rx_calls: usize,
+}
+
+impl<const N: usize, const P: usize, const TXN: usize> TPhy<N, P, TXN> {
+    pub fn any() -> Self {
+        let n: usize = kani::any();
+        kani::assume(n <= N);
+        let tail = match kani::any::<u8>() {
+            0 => Tail::Empty,
+            1 => Tail::Incomplete,
+            _ => Tail::Garbage,
+        };
+        let tail_len: usize = kani::any();
+        kani::assume(tail_len <= 8);
+        kani::assume((tail == Tail::Empty) == (tail_len == 0));
+        let mut tel = [STel::<P>::any(); N];
+        let mut i = 0;
+        while i < N {
+            tel[i] = STel::<P>::any();
+            i += 1;
+        }
+        TPhy { tel, n, next: 0, tail, tail_len, transmitting: kani::any(), tx: [0; TXN], tx_len: 0, tx_calls: 0, rx_calls: 0 }
+    }
+
+    /// bytes currently in the receive buffer
+    pub fn pending(&self) -> usize {
+        let mut s = self.tail_len;
+        let mut i = self.next;
+        while i < self.n {
+            s += self.tel[i].wire_len();
+            i += 1;
+        }
+        s
+    }
+
+    pub fn has_complete(&self) -> bool {
+        self.next < self.n
+    }
+}
+
+impl<const N: usize, const P: usize, const TXN: usize> crate::phy::ProfibusPhy for TPhy<N, P, TXN> {
+    fn poll_transmission(&mut self, _now: crate::time::Instant) -> bool {
+        self.transmitting
+    }
+
+    fn transmit_data<F, R>(&mut self, _now: crate::time::Instant, f: F) -> R
+    where
+        F: FnOnce(&mut [u8]) -> (usize, R),
+    {
+        assert!(!self.transmitting, "C01/phy-contract: no transmission is started while another one is in progress");
+        let (n, r) = f(&mut self.tx[..]);
+        if n > 0 {
+            assert!(n <= TXN, "C01/phy-contract: transmitted length lies inside the buffer");
+            self.tx_len = n;
+            self.tx_calls += 1;
+            self.transmitting = true;
+        }
+        r
+    }
+
+    fn receive_data<F, R>(&mut self, _now: crate::time::Instant, _f: F) -> R
+    where
+        F: FnOnce(&[u8]) -> (usize, R),
+    {
+        // All receive helpers are overridden; raw access is not used by the FDL layer.
+        unreachable!("TPhy: raw receive_data is not modelled")
+    }
+
+    fn receive_telegram<F, R>(&mut self, _now: crate::time::Instant, f: F) -> Option<R>
+    where
+        F: FnOnce(crate::fdl::Telegram) -> R,
+    {
+        assert!(!self.transmitting, "C01/phy-contract: nothing is received while a transmission is in progress");
+        self.rx_calls += 1;
+        if self.next < self.n {
+            let t = self.tel[self.next];
+            self.next += 1;
+            Some(t.with(f))
+        } else {
+            if self.tail == Tail::Garbage {
+                self.tail = Tail::Empty;
+                self.tail_len = 0;
+            }
+            None
+        }
+    }
+
+    fn receive_all_telegrams<F, R>(&mut self, _now: crate::time::Instant, mut f: F) -> Option<R>
+    where
+        F: FnMut(crate::fdl::Telegram, bool) -> R,
+    {
+        assert!(!self.transmitting, "C01/phy-contract: nothing is received while a transmission is in progress");
+        self.rx_calls += 1;
+        let mut res = None;
+        while self.next < self.n {
+            let t = self.tel[self.next];
+            self.next += 1;
+            let is_last = self.next == self.n && self.tail == Tail::Empty;
+            let r = t.with(|tg| f(tg, is_last));
+            res = if is_last { Some(r) } else { None };
+        }
+        if self.tail == Tail::Garbage {
+            self.tail = Tail::Empty;
+            self.tail_len = 0;
+        }
+        res
+    }
+
+    fn poll_pending_received_bytes(&mut self, _now: crate::time::Instant) -> usize {
+        assert!(!self.transmitting, "C01/phy-contract: nothing is received while a transmission is in progress");
+        self.pending()
+    }
+}
+
+// ------------------------------------------------------------------------------------------
+// NdApp: nondeterministic FDL application that records every callback
+// ------------------------------------------------------------------------------------------
+
+pub static mut CB_SEQ: u8 = 0;
+
+fn next_seq() -> u8 {
+    unsafe {
+        CB_SEQ += 1;
+        CB_SEQ
+    }
+}
+
+#[derive(Clone, Copy)]
+pub struct NdApp {
+    /// 0 decline, 1 FDL status request (expects a reply), 2 SDN broadcast (no reply)
+    pub behaviour: u8,
+    pub target: u8,
+    pub tx_calls: u8,
+    pub tx_seq: u8,
+    pub tx_high_prio_only: bool,
+    pub rx_calls: u8,
+    pub rx_seq: u8,
+    pub rx_addr: u8,
+    pub rx_kind: u8,
+    pub rx_sa: u8,
+    pub rx_da: u8,
+    pub rx_is_response: bool,
+    pub to_calls: u8,
+    pub to_seq: u8,
+    pub to_addr: u8,
+}
+
+impl NdApp {
+    pub fn any() -> Self {
+        let behaviour: u8 = kani::any();
+        kani::assume(behaviour <= 2);
+        let target: u8 = kani::any();
+        kani::assume(target <= 126);
+        NdApp {
+            behaviour, target,
+            tx_calls: 0, tx_seq: 0, tx_high_prio_only: false,
+            rx_calls: 0, rx_seq: 0, rx_addr: 0, rx_kind: 0, rx_sa: 0, rx_da: 0, rx_is_response: false,
+            to_calls: 0, to_seq: 0, to_addr: 0,
+        }
+    }
+
+    pub fn callbacks(&self) -> u8 {
+        self.tx_calls + self.rx_calls + self.to_calls
+    }
+}
+
+impl crate::fdl::FdlApplication for NdApp {
+    fn transmit_telegram(
+        &mut self,
+        _now: crate::time::Instant,
+        fdl: &crate::fdl::FdlActiveStation,
+        tx: crate::fdl::TelegramTx,
+        high_prio_only: crate::fdl::HighPrioOnly,
+    ) -> Option<crate::fdl::TelegramTxResponse> {
+        self.tx_calls += 1;
+        self.tx_seq = next_seq();
+        self.tx_high_prio_only = high_prio_only == crate::fdl::HighPrioOnly::Yes;
+        match self.behaviour {
+            0 => None,
+            1 => Some(tx.send_fdl_status_request(self.target, fdl.parameters().address)),
+            _ => Some(tx.send_data_telegram(
+                DataTelegramHeader {
+                    da: 127,
+                    sa: fdl.parameters().address,
+                    dsap: Some(58),
+                    ssap: Some(62),
+                    fc: FunctionCode::Request { fcb: FrameCountBit::Inactive, req: RequestType::SdnLow },
+                },
+                2,
+                |b| b.fill(0),
+            )),
+        }
+    }
+
+    fn receive_reply(&mut self, _now: crate::time::Instant, _fdl: &crate::fdl::FdlActiveStation, addr: u8, telegram: crate::fdl::Telegram) {
+        self.rx_calls += 1;
+        self.rx_seq = next_seq();
+        self.rx_addr = addr;
+        match &telegram {
+            crate::fdl::Telegram::Token(t) => {
+                self.rx_kind = 0;
+                self.rx_sa = t.sa;
+                self.rx_da = t.da;
+            }
+            crate::fdl::Telegram::ShortConfirmation(_) => self.rx_kind = 1,
+            crate::fdl::Telegram::Data(d) => {
+                self.rx_kind = 2;
+                self.rx_sa = d.h.sa;
+                self.rx_da = d.h.da;
+                self.rx_is_response = matches!(d.h.fc, FunctionCode::Response { .. });
+            }
+        }
+    }
+
+    fn handle_timeout(&mut self, _now: crate::time::Instant, _fdl: &crate::fdl::FdlActiveStation, addr: u8) {
+        self.to_calls += 1;
+        self.to_seq = next_seq();
+        self.to_addr = addr;
+    }
+}
